@@ -67,6 +67,8 @@ type invocation struct {
 	idx     int
 	spawned bool
 	arrived bool // the goroutine sits at the gate inside the registered UnmarshalFn (entry lock held)
+	queued  bool // looked the entry up (in the model) while another invocation held its lock: the real
+	// call is started when that one unlocks, so that its registry Load can be synchronised
 }
 
 const (
@@ -113,33 +115,38 @@ func replayable(b behaviour) bool {
 			}
 		}
 	}
-	// a hasher that looks an entry up while another one holds its lock cannot be synchronised with the
-	// registry: exclude behaviours where a Fetch registers or returns before it gets the lock
+	// an invocation that looks an entry up while another one holds its lock is started for real only
+	// when that one unlocks: exclude behaviours where a Fetch registers or returns in between
 	holding := map[key]string{}
-	waiting := map[string]bool{}
+	queued := map[string]key{}
 	for _, s := range b.Steps {
 		switch s.A {
 		case "HasherWrite":
 			cur[s.T] = s.M
 		case "HLookup":
 			if s.Hpc[s.T] == "lock" {
-				if h, ok := holding[key{s.Own[s.T], cur[s.T].Cid}]; ok && h != s.T {
-					waiting[s.T] = true
+				k := key{s.Own[s.T], cur[s.T].Cid}
+				if _, held := holding[k]; held {
+					queued[s.T] = k
 				} else {
-					holding[key{s.Own[s.T], cur[s.T].Cid}] = s.T // real: takes the lock right away
+					holding[k] = s.T // the real call takes the free lock right away
 				}
 			}
-		case "HLock":
-			delete(waiting, s.T)
-			holding[key{s.Own[s.T], cur[s.T].Cid}] = s.T
 		case "HUnmarshal":
 			for k, h := range holding {
 				if h == s.T {
 					delete(holding, k)
+					for t2, k2 := range queued {
+						if k2 == k {
+							holding[k] = t2
+							delete(queued, t2)
+							break
+						}
+					}
 				}
 			}
 		case "FetchRegister", "FetchReturn":
-			if len(waiting) > 0 {
+			if len(queued) > 0 {
 				return false
 			}
 		}
@@ -209,6 +216,17 @@ func (w *world) replay(b behaviour, bind *binding, typ string) bool {
 		rep.Inconclusivef("replay %s (%s, %s) step %d %s: %s", b.Name, b.Source, typ, i, b.Steps[i].A, fmt.Sprintf(f, a...))
 		return false
 	}
+	// a Block that stays empty where the model fills it: keep going -- if the Fetch then returns nil the
+	// oracle below turns it into a violation; otherwise it is reported as drift at the end
+	var underFilled []string
+	violated := false
+	defer func() {
+		if !violated {
+			for _, u := range underFilled {
+				rep.Inconclusivef("%s", u)
+			}
+		}
+	}()
 	for i, s := range b.Steps {
 		switch s.A {
 		case "FetchStart":
@@ -244,12 +262,15 @@ func (w *world) replay(b behaviour, bind *binding, typ string) bool {
 			if s.A != "HLookup" && s.Hpc[s.T] != "rejected" {
 				break // nothing observable yet
 			}
-			go func() {
-				c, err, pan := sum(inv.prefix, inv.data)
-				inv.resCh <- sumResult{c, err, pan}
-			}()
-			inv.spawned = true
+			spawn := func() {
+				inv.spawned = true
+				go func() {
+					c, err, pan := sum(inv.prefix, inv.data)
+					inv.resCh <- sumResult{c, err, pan}
+				}()
+			}
 			if s.Hpc[s.T] == "rejected" {
+				spawn()
 				res := <-inv.resCh // no gate on this path: registry miss or malformed envelope / CID
 				inv.res = &res
 				if res.pan != "" {
@@ -259,33 +280,29 @@ func (w *world) replay(b behaviour, bind *binding, typ string) bool {
 				if res.err == nil {
 					return drift(i, "model rejects at %s, the real hasher accepts", s.A)
 				}
-			} else {
-				inv.owner = s.Own[s.T]
-				inv.idx = indexOf(b.Wants[inv.owner], inv.m.Cid)
-				// The registry Load must have happened before the next model step (which may delete the
-				// entry).  If nobody holds the entry lock the goroutine runs on into the gate: wait for
-				// that.  If another invocation holds it, it queues on the mutex right after the Load;
-				// `replayable` has excluded behaviours where the registry changes in that window.
-				held := false
-				for t2, o := range th {
-					if t2 != s.T && o.arrived && o.owner == inv.owner && o.idx == inv.idx {
-						held = true
-					}
-				}
-				if !held {
-					if _, err := r.waitFor("hasher arriving in UnmarshalFn", func(e event) bool { return e.kind == "unmarshal" && e.f == inv.owner && e.idx == inv.idx }); err != nil {
-						return drift(i, "%v", err)
-					}
-					inv.arrived = true
+				break
+			}
+			inv.owner = s.Own[s.T]
+			inv.idx = indexOf(b.Wants[inv.owner], inv.m.Cid)
+			// The registry Load must be ordered with the model's steps.  If nobody holds the entry lock
+			// the goroutine runs on into the gate inside UnmarshalFn: wait for that.  If another
+			// invocation holds it, the real call is started when that one unlocks (`replayable` has
+			// excluded behaviours where the registry changes in between).
+			for t2, o := range th {
+				if t2 != s.T && o.arrived && o.owner == inv.owner && o.idx == inv.idx {
+					inv.queued = true
 				}
 			}
-		case "HLock":
-			inv := th[s.T]
-			if !inv.arrived {
+			if !inv.queued {
+				spawn()
 				if _, err := r.waitFor("hasher arriving in UnmarshalFn", func(e event) bool { return e.kind == "unmarshal" && e.f == inv.owner && e.idx == inv.idx }); err != nil {
 					return drift(i, "%v", err)
 				}
 				inv.arrived = true
+			}
+		case "HLock":
+			if inv := th[s.T]; !inv.arrived {
+				return drift(i, "model takes the entry lock, the real hasher has not reached UnmarshalFn")
 			}
 		case "HUnmarshal":
 			inv := th[s.T]
@@ -293,15 +310,19 @@ func (w *world) replay(b behaviour, bind *binding, typ string) bool {
 			res := <-inv.resCh
 			inv.res = &res
 			inv.arrived = false
-			if res.pan != "" {
-				rep.Violate("C10/hasher/panic", res.pan, ctxInfo(i))
-				return false
-			}
-			if (res.err == nil) != (s.Hpc[s.T] == "accepted") {
-				return drift(i, "model %s, real err=%v", s.Hpc[s.T], res.err)
-			}
-			if res.err == nil && !(inv.m.Body.Kind == "honest" && inv.m.Body.Of == inv.m.Cid && inv.m.Body.Sq == "S") {
-				rep.Violate(sigHasherPop, fmt.Sprintf("%s %v: block %+v does not verify for it but passes the hasher (the registered Block was already populated)", typ, bind.ids[inv.m.Cid], inv.m), ctxInfo(i))
+			// start the invocation that (in the model) looked this entry up while it was locked
+			for t2, o := range th {
+				if t2 != s.T && o.queued && !o.spawned && o.owner == inv.owner && o.idx == inv.idx {
+					o.spawned = true
+					go func() {
+						c, err, pan := sum(o.prefix, o.data)
+						o.resCh <- sumResult{c, err, pan}
+					}()
+					if _, err := r.waitFor("queued hasher arriving in UnmarshalFn", func(e event) bool { return e.kind == "unmarshal" && e.f == o.owner && e.idx == o.idx }); err != nil {
+						return drift(i, "%v", err)
+					}
+					o.arrived = true
+				}
 			}
 		case "BitswapPublish":
 			inv := th[s.T]
@@ -388,8 +409,9 @@ func (w *world) replay(b behaviour, bind *binding, typ string) bool {
 							rep.Violate(sigStale, fmt.Sprintf("%s %v: Fetch returned nil but its Block is empty: the hasher filled the Block of an earlier, already returned Fetch through a registry entry it had loaded before that Fetch deleted it",
 								typ, bind.ids[n]), ctxInfo(i))
 						} else {
-							rep.Violate("C10/fetch/returns-nil-unfilled", fmt.Sprintf("%s %v: Fetch returned nil, Block empty", typ, bind.ids[n]), ctxInfo(i))
+							rep.Violate("C10/fetch/returns-nil-unfilled", fmt.Sprintf("%s %v: Fetch %s returned nil (success) but its Block is empty; the specification has it filled with the verified container at this point", typ, bind.ids[n], s.F), ctxInfo(i))
 						}
+						violated = true
 					}
 				}
 			}
@@ -402,6 +424,12 @@ func (w *world) replay(b behaviour, bind *binding, typ string) bool {
 				if !empty && (!bytes.Equal(containerBytes(real), refs[n]) || verifies(real, bind.sqS) != nil) {
 					rep.Violate("C10/filled-with-unverified-data", fmt.Sprintf("%s %v of %s holds data that is not the committed data", typ, bind.ids[n], f), ctxInfo(i))
 					return false
+				}
+				if empty && s.Cont[f][n].Kind != "empty" {
+					if len(underFilled) == 0 {
+						underFilled = append(underFilled, fmt.Sprintf("replay %s (%s, %s) step %d %s: container of %s/%s stays empty, model %+v", b.Name, b.Source, typ, i, s.A, f, n, s.Cont[f][n]))
+					}
+					continue
 				}
 				if empty != (s.Cont[f][n].Kind == "empty") {
 					return drift(i, "container of %s/%s: real empty=%v, model %+v", f, n, empty, s.Cont[f][n])
